@@ -114,9 +114,16 @@ impl Keys {
                 // must have no further effect.
                 self.slots[s] = Some((key, sid));
             }
-            _ => {
+            2 => {
                 let auto = key.into_auto();
                 drop(auto);
+            }
+            _ => {
+                // A clone stays alive (and in the slot) while the auto key is dropped.
+                let c = key.clone();
+                let auto = key.into_auto();
+                drop(auto);
+                self.slots[s] = Some((c, sid));
             }
         }
         ctx.log(Ev::CancelRet { actor, sid });
